@@ -24,6 +24,25 @@ CUSTOM_SPECS = [
 ]
 
 
+# a table in which roles have several reifications and concepts serve several roles (ambiguous in C11's sense, so
+# only used where the property does not care: C17 demands identical results, whatever they are).  The order of the
+# entries matters: Model.reify takes a role's *first* reification
+MULTI_REIFICATION_SPEC = dict(
+    CUSTOM_SPECS[0],
+    reifications=[[':mod', 'have-mod-91', ':ARG1', ':ARG2'],
+                  [':loc', 'be-located-at-91', ':ARG1', ':ARG2'],
+                  [':loc', 'have-mod-91', ':ARG3', ':ARG4'],
+                  [':quant', 'have-quant-91', ':ARG1', ':ARG2'],
+                  [':quant', 'be-located-at-91', ':ARG3', ':ARG4']])
+
+
+def custom_any(i):
+    """custom(i), or every third time the multi-reification table"""
+    if i % 3 == 2:
+        return {'kind': 'custom', 'spec': MULTI_REIFICATION_SPEC}
+    return custom(i)
+
+
 # a model whose concept role is not ':instance' (so ':instance' itself is an undefined role): C16 only
 OWN_CONCEPT_ROLE = {'kind': 'custom', 'spec': dict(CUSTOM_SPECS[0], concept_role=':isa')}
 
